@@ -164,7 +164,7 @@ pub fn c19(tier: &str) -> i32 {
     let cov = json!({
         "evaluations": rows.len() + probed.len(),
         "distinct_nontrivial": nontrivial,
-        "rule": "exhaustive product: 12 wrappers (ArcSwapAny, Guard, Cache<&_>, Cache<Arc<_>>, MapCache, Map<&_>, Map<Arc<_>>, MapGuard, DirectDeref, DynGuard, Constant, AccessConvert<Box<dyn>>) x 6 pointer kinds (Arc, Option<Arc>, Rc, Option<Rc>, sync::Weak, rc::Weak) x 4 pointee auto-trait combinations x 3 strategies; (Send, Sync) of each instantiation observed at compile time against the current tree and compared with the rule 'W: Send => pointer: Send, W: Sync => pointer: Sync, and the principal types are Send+Sync when the pointer is'. Non-trivial: instantiations whose stored pointer is not Send+Sync. Sampled rows are re-decided by rustc (a program that needs the bound must be accepted/rejected accordingly).",
+        "rule": "exhaustive product: 16 wrappers (ArcSwapAny, Guard, Cache<&_>, Cache<Arc<_>>, MapCache, Map<&_>, Map<Arc<_>>, MapGuard, DirectDeref, DynGuard, Constant, AccessConvert<Box<dyn>>, and MapGuard/Map/MapCache projecting to a thread-safe u32) x 6 pointer kinds (Arc, Option<Arc>, Rc, Option<Rc>, sync::Weak, rc::Weak) x 4 pointee auto-trait combinations x 3 strategies; (Send, Sync) of each instantiation observed at compile time against the current tree and compared with the rule 'W: Send => pointer: Send, W: Sync => pointer: Sync, and the principal types are Send+Sync when the pointer is'; plus 24 type-erased rows (DynGuard<T>, Box<dyn DynAccess<T>>, AccessConvert, MapGuard<DynGuard<T>> for 6 target types) that may never be Send or Sync because what they box is unknown. Non-trivial: instantiations whose stored pointer is not Send+Sync. Sampled rows are re-decided by rustc (a program that needs the bound must be accepted/rejected accordingly).",
         "samples": samples,
         "exhaustive": true,
         "table_rows": rows.len(),
